@@ -103,7 +103,7 @@ func C02(tier Tier) int {
 // C04
 
 func c04Profiles(tier Tier) []*explore.Profile {
-	o := menuOpts{thorough: tier.Thorough(), shards: 2, extra: [][]byte{uni.Z1}, sysFlavours: true}
+	o := menuOpts{thorough: tier.Thorough(), shards: 2, extra: [][]byte{uni.Z1}, sysFlavours: true, repeatControls: true}
 	depth := 3
 	if tier.Thorough() {
 		depth = 4
@@ -287,7 +287,46 @@ func c07Profiles(tier Tier) []*explore.Profile {
 			return acts
 		},
 	}
-	return []*explore.Profile{p, highNonceProfile("high-nonce", tier, []explore.Oracle{&nonceOracle{property: "C07"}}, 3),
+	// a contract as creator (its hand-over message travels with a contract as caller), and holders
+	// that are granted a further role while a hand-over message to them is still in flight
+	cc := &explore.Profile{
+		Name: "contract-creator", EnvCfg: ledgerEnv(2), Depth: depth - 1, Deadline: tierDeadline(tier), WithGhost: true,
+		Oracles: []explore.Oracle{&nonceOracle{property: "C07"}},
+		Seeds: func(env *world.Env) []explore.SeedState {
+			b := uni.SeedBuilder(env, "sft")
+			b.Must(uni.SetRole(uni.S0, uni.R, vmcommon.ESDTRoleNFTCreate))
+			b.Must(uni.Create(uni.S0, uni.R, 1))
+			return []explore.SeedState{{Name: "sft+contract-creator", W: b.W, Legs: b.Legs, Failed: b.Failed}}
+		},
+		Menu: func(w *world.World) []world.Action {
+			var acts []world.Action
+			holders := append(append([][]byte{}, users(o)...), uni.S0)
+			for _, tok := range [][]byte{uni.S, uni.R} {
+				for _, a := range holders {
+					acts = append(acts, uni.Create(a, tok, 1))
+				}
+				// the system contract grants the add-quantity role to whoever its records show as
+				// the creator or the creator-to-be (A7 a: only when not held)
+				for _, a := range users(o) {
+					if (w.GhostHasRole(a, string(tok), vmcommon.ESDTRoleNFTCreate) || spec.HasRole(w.Get(a), string(tok), vmcommon.ESDTRoleNFTCreate)) && !w.GhostHasRole(a, string(tok), vmcommon.ESDTRoleNFTAddQuantity) {
+						acts = append(acts, uni.SetRole(a, tok, vmcommon.ESDTRoleNFTAddQuantity))
+					}
+				}
+				if cur := anyHolder(w, string(tok), vmcommon.ESDTRoleNFTCreate); cur != nil && !handoverInFlight(w, string(tok)) {
+					for _, next := range users(o) {
+						if string(next) != string(cur) {
+							acts = append(acts, uni.SysCall(cur, vmcommon.BuiltInFunctionESDTNFTCreateRoleTransfer, tok, next))
+						}
+					}
+				}
+			}
+			for i := range w.Inflight {
+				acts = append(acts, uni.Deliver(i))
+			}
+			return acts
+		},
+	}
+	return []*explore.Profile{p, cc, highNonceProfile("high-nonce", tier, []explore.Oracle{&nonceOracle{property: "C07"}}, 3),
 		highNonceProfileAt("high-nonce-256", tier, []explore.Oracle{&nonceOracle{property: "C07"}}, 3, 256)}
 }
 
